@@ -339,6 +339,12 @@ class Tx(BaseTx):
             return True
         return self.unspents[idx] is None
 
+    def is_solution_ok(self, tx_in_idx: int, *args: Any, **kwargs: Any) -> bool:
+        if self.missing_unspent(tx_in_idx):
+            # no spent output to validate against (this includes a coinbase input): never reported valid
+            return False
+        return super(Tx, self).is_solution_ok(tx_in_idx, *args, **kwargs)
+
     def missing_unspents(self) -> bool:
         if self.is_coinbase():
             return False
